@@ -970,6 +970,7 @@ func runScenario(c *W3Case, prop string, out *Outcome, wantLog bool, before func
 			out.SimSeconds = s.now().Seconds()
 			if s.deepYields > 0 {
 				out.Stat("deep_yields", int64(s.deepYields))
+				s.logf("deep yields: %d (of which long: %d)", s.deepYields, s.longYields)
 			}
 			out.TraceHash = s.h
 			out.Log = s.log
